@@ -162,6 +162,11 @@ fn special_envelopes(c: &mut Ctx) -> Vec<String> {
         out.push(c.assign(&format!("add {} {}", s, ae)));
     }
     // leaves with awkward tagged content
+    // SSKR share objects that are too short to carry an identifier, sealed messages / signatures with odd content
+    for hx in ["d99d7540", "d99d754112", "d99d75421234", "d99c5380", "d99c5440"] {
+        let l = c.assign(&format!("leaf {}", hx));
+        if c.is_ok(&l) { for kv in [6u64, 5, 3] { let p = c.assign(&format!("kv {}", kv)); let a = c.assign(&format!("assertion {} {}", p, l)); out.push(c.assign(&format!("add {} {}", s, a))); } }
+    }
     for hx in ["c1fb7e37e43c8800759c", "c1f97c00", "c1f97e00", "c16161", "d99c58a0", "d99c4c4100", "d99c565820", "d99c5a00", "d99c5b6161", "d8c8d8c901", "d99c4080", "d99c5280", "d99d7500"] {
         let l = c.assign(&format!("leaf {}", hx));
         if c.is_ok(&l) { out.push(l.clone()); let p = c.assign("kv 16"); let a = c.assign(&format!("assertion {} {}", p, l)); out.push(c.assign(&format!("add {} {}", s, a))); }
